@@ -54,6 +54,11 @@ structure RPod where
     templates that patch all containers of the pod (grpc-agent, grpc-simple). -/
 def reservedNames : List String := ["istio-proxy", "istio-init", "istio-validation", "enable-core-dump"]
 
+/-- Names of all containers of the pod (regular and init). -/
+def RPod.ctrNames (p : RPod) : List String := (p.containers ++ p.inits).map (·.core.name)
+
+def RPod.volNames (p : RPod) : List String := p.volumes.map (·.name)
+
 /-- The user's containers: those of the list whose name the injector does not own. -/
 def userCtrs (owned : List String) (l : List CtrObs) : List Ctr :=
   (l.map (·.core)).filter (fun c => !owned.contains c.name)
@@ -66,11 +71,14 @@ def userVols (owned : List String) (l : List Vol) : List Vol :=
     elements may be interleaved) of the result's, where a container counts as the same only if
     name, image, command, args and ports are all equal, and a volume only if it is equal as a whole.
     A user volume that has the name of a volume the result's status annotation records as injected is
-    merged with it and is not covered. -/
+    merged with it and is not covered (that the annotation is a truthful record is `StatusTruthful`).
+    A container of a reserved name is a customisation of an injected one: it is merged and may be moved, but it never
+    vanishes (4th clause) - also when the template in force does not inject a container of that name. -/
 def Preserves (before after : RPod) : Prop :=
   (userCtrs reservedNames before.containers).Sublist (after.containers.map (·.core)) ∧
   (userCtrs reservedNames before.inits).Sublist (after.inits.map (·.core)) ∧
-  (userVols after.injV before.volumes).Sublist after.volumes
+  (userVols after.injV before.volumes).Sublist after.volumes ∧
+  (∀ n ∈ before.ctrNames, n ∈ reservedNames → n ∈ after.ctrNames)
 
 def keepsContainersB (before after : RPod) : Bool :=
   (userCtrs reservedNames before.containers).isSublist (after.containers.map (·.core))
@@ -81,9 +89,29 @@ def keepsInitsB (before after : RPod) : Bool :=
 def keepsVolumesB (before after : RPod) : Bool :=
   (userVols after.injV before.volumes).isSublist after.volumes
 
+def keepsReservedB (before after : RPod) : Bool :=
+  before.ctrNames.all (fun n => !reservedNames.contains n || after.ctrNames.contains n)
+
 /-- The checker the driver runs. -/
 def preservesB (before after : RPod) : Bool :=
-  keepsContainersB before after && keepsInitsB before after && keepsVolumesB before after
+  keepsContainersB before after && keepsInitsB before after && keepsVolumesB before after && keepsReservedB before after
+
+/-- **The status annotation is a truthful record** of what the injection added: every name it lists is in the pod
+    (containers in either list: native sidecars), and every container / volume the pod gained is listed. -/
+def StatusTruthful (orig after : RPod) : Prop :=
+  (∀ n ∈ after.injC ++ after.injI, n ∈ after.ctrNames) ∧
+  (∀ n ∈ after.injV, n ∈ after.volNames) ∧
+  (∀ n ∈ after.ctrNames, n ∉ orig.ctrNames → n ∈ after.injC ++ after.injI) ∧
+  (∀ n ∈ after.volNames, n ∉ orig.volNames → n ∈ after.injV)
+
+def statusTruthfulB (orig after : RPod) : Bool :=
+  (after.injC ++ after.injI).all (after.ctrNames.contains ·) &&
+  after.injV.all (after.volNames.contains ·) &&
+  after.ctrNames.all (fun n => orig.ctrNames.contains n || (after.injC ++ after.injI).contains n) &&
+  after.volNames.all (fun n => orig.volNames.contains n || after.injV.contains n)
+
+/-- The pod carried no record of an earlier injection (the clause `StatusTruthful orig once` applies to first injections). -/
+def RPod.fresh (p : RPod) : Bool := p.injC.isEmpty && p.injI.isEmpty && p.injV.isEmpty
 
 /-- **Idempotence** (Prop level): the second injection returns the pod of the first, in every
     observed component (containers incl. digests of all their fields, volumes, metadata, rest of
@@ -117,20 +145,23 @@ structure Obs where
   deriving Repr
 
 inductive Verdict
-  | okInjected | okSkipped | okRejected | okUnloadable
+  | okInjected | okSkipped | okRejected | okNotApplicable
   | fail (clause : String)
   deriving DecidableEq, Repr
 
-/-- The three monitors on a complete observation of an injected pod. -/
+/-- The monitors on a complete observation of an injected pod. -/
 def judgeMonitors (o : Obs) : Verdict :=
   match o.orig, o.once, o.twice with
   | some a, some b, some c =>
     if !keepsContainersB a b then .fail "preserve-once-containers"
     else if !keepsInitsB a b then .fail "preserve-once-inits"
     else if !keepsVolumesB a b then .fail "preserve-once-volumes"
+    else if !keepsReservedB a b then .fail "preserve-once-reserved"
     else if !keepsContainersB a c then .fail "preserve-twice-containers"
     else if !keepsInitsB a c then .fail "preserve-twice-inits"
     else if !keepsVolumesB a c then .fail "preserve-twice-volumes"
+    else if !keepsReservedB a c then .fail "preserve-twice-reserved"
+    else if a.fresh && !statusTruthfulB a b then .fail "status-content"
     else if !idempotentB b c then .fail ("idempotent " ++ diffComponent b c)
     else .okInjected
   | _, _, _ => .fail "incomplete-trace"
@@ -142,23 +173,31 @@ def judgeSkipped (o : Obs) : Verdict :=
   | _, _ => .fail "incomplete-trace"
 
 /-- The judgement for one observed pod: first the outcome of the admission (skipped / refused / injected) against
-    the documented decision, then the monitors. -/
+    the documented decision - which has to be known: an observation without decision inputs is rejected -, then the
+    monitors. A case of the check that does not load is a failure; "na" is a decision-only case whose precondition
+    (the first admission injects) does not hold. -/
 def judge (o : Obs) : Verdict :=
   match o.status with
-  | "unloadable" => .okUnloadable
+  | "na" => .okNotApplicable
+  | "unloadable" => .fail "unloadable"
   | "crash" => .fail "crash"
   | "bad-patch" => .fail "bad-patch"
   | "error-on-reinjection" | "crash-on-reinjection" | "bad-patch-on-reinjection" => .fail "reinjection-errors"
   | "error" =>
-    if o.expect = some false then .fail "decision-refused-but-documented-skip"
-    else if o.refusal = "no" then .fail "unexpected-refusal"
-    else .okRejected                 -- the injector refused the pod: nothing was changed
+    match o.expect with
+    | none => .fail "no-decision-inputs"
+    | some false => .fail "decision-refused-but-documented-skip"
+    | some true => if o.refusal = "no" then .fail "unexpected-refusal" else .okRejected
   | "skipped" =>
-    if o.expect = some true then .fail "decision-skipped-but-documented-inject" else judgeSkipped o
+    match o.expect with
+    | none => .fail "no-decision-inputs"
+    | some true => .fail "decision-skipped-but-documented-inject"
+    | some false => judgeSkipped o
   | "injected" =>
-    if o.expect = some false then .fail "decision-injected-but-documented-skip"
-    else if o.refusal = "must" then .fail "expected-refusal-but-injected"
-    else judgeMonitors o
+    match o.expect with
+    | none => .fail "no-decision-inputs"
+    | some false => .fail "decision-injected-but-documented-skip"
+    | some true => if o.refusal = "must" then .fail "expected-refusal-but-injected" else judgeMonitors o
   | _ => .fail "unknown-status"
 
 /-- The line printed for a `check` line (same vocabulary as the harness oracle). -/
@@ -166,7 +205,7 @@ def Verdict.render : Verdict → String
   | .okInjected => "OK injected"
   | .okSkipped => "OK skipped"
   | .okRejected => "OK rejected"
-  | .okUnloadable => "OK unloadable"
+  | .okNotApplicable => "OK n/a"
   | .fail c => "FAIL " ++ c
 
 end IstioModel.C19
